@@ -31,6 +31,8 @@ LEVEL_TEXT = ("For ALL real signals of length 2 and 4 (1-D, and 2-D along either
 LEVEL_NOTE = "Trusted: z3 (LRA/NRA), the exact small-n DFT stub, SymArray model."
 
 _EXACT = {0: (1, 0), 1: (0, 1), 2: (-1, 0), 3: (0, -1)}
+_APPROX = [False]            # set by the length-3 case: twiddles that are not fourth roots of unity are taken as the rational value of their double
+_R3 = Fraction(math.sqrt(3) / 2)
 
 
 def _exact_exp(z):
@@ -44,7 +46,11 @@ def _exact_exp(z):
         q = v.imag / (math.pi / 2)
         k = round(q)
         if abs(q - k) > 1e-9:
-            raise core.Unsupported("phase is not a multiple of pi/2: fractional shifts are outside the exact model")
+            if not _APPROX[0]:
+                raise core.Unsupported("phase is not a multiple of pi/2: fractional shifts are outside the exact model")
+            # length-3 model: the twiddle as the exact rational value of its double (error ~1e-16, obligations carry a tolerance)
+            out[pos] = SCx(Fraction(math.cos(v.imag)), Fraction(math.sin(v.imag)))
+            continue
         re, im = _EXACT[k % 4]
         out[pos] = SCx(re, im) if im != 0 else re
     return arrays.wrap(out) if out.shape else out[()]
@@ -58,6 +64,8 @@ def _dft_lane(x):
         return [SCx.of(x[0] + x[1]), SCx.of(x[0] - x[1])]
     if n == 4:
         return [SCx.of(x[0] + x[1] + x[2] + x[3]), SCx(x[0] - x[2], x[3] - x[1]), SCx.of(x[0] - x[1] + x[2] - x[3])]
+    if n == 3 and _APPROX[0]:
+        return [SCx.of(x[0] + x[1] + x[2]), SCx(x[0] - (x[1] + x[2]) / 2, (x[2] - x[1]) * _R3)]
     raise core.Unsupported(f"exact rfft for n={n}")
 
 
@@ -70,6 +78,9 @@ def _idft_lane(X, n):
     if n == 4:
         a, b, c = X[0].re, X[1], X[2].re
         return [(a + 2 * b.re + c) / 4, (a - 2 * b.im - c) / 4, (a - 2 * b.re + c) / 4, (a + 2 * b.im - c) / 4]
+    if n == 3 and _APPROX[0]:
+        a, b = X[0].re, X[1]
+        return [(a + 2 * b.re) / 3, (a - b.re - 2 * _R3 * b.im) / 3, (a - b.re + 2 * _R3 * b.im) / 3]
     raise core.Unsupported(f"exact irfft for n={n}")
 
 
@@ -100,6 +111,15 @@ def irfft_stub(X, n=None, axis=-1, **k):
 
 def _validate():
     rng = np.random.default_rng(0)
+    _APPROX[0] = True
+    try:
+        x = rng.normal(size=3)
+        got = np.array([complex(float(v.re), float(v.im)) for v in _dft_lane(list(x))])
+        back = np.array([float(v) for v in _idft_lane(list(scipy.fft.rfft(x)), 3)])
+        if not np.allclose(got, scipy.fft.rfft(x), atol=1e-13) or not np.allclose(back, x, atol=1e-13):
+            raise core.Unsupported("length-3 DFT stub disagrees with SciPy")
+    finally:
+        _APPROX[0] = False
     for n in (2, 4):
         x = rng.normal(size=n)
         got = np.array([complex(float(v.re), float(v.im)) for v in _dft_lane(list(x))])
@@ -122,6 +142,7 @@ def setup():
     arrays.patch_module(w)
     w.scipy = stubs.Namespace(scipy, signal=stubs.Namespace(scipy.signal, correlate=_correlate_same))
     w.parabolic_max = u.parabolic_max
+    w.np = _NPw()        # np.fft on 1-D real signals: the spectrum algebra above (only reached by code that correlates through FFTs)
     rng = np.random.default_rng(int(__import__("os").environ.get("VERIF_SEED", "0") or 0))
     for n in range(3, 14):
         a, b = rng.normal(size=n), rng.normal(size=n)
@@ -215,6 +236,28 @@ def case_shift_2d(ctx, rows, cols, axis):
     ctx.oblige("real_input_left_untouched", all(np.asarray(arrays._plain(w), dtype=object).ravel()[i] is before[i] for i in range(rows * cols)))
 
 
+def case_shift_near_integer(ctx, k):
+    """successive shifts add, also when the total is a hair away from a whole number of samples (accumulated float round-off,
+    or a large delay with a small fractional part): two shifts by h = k/2 + 2^-21 equal one shift by 2h = k + 2^-20.
+    Length 3 (no Nyquist bin), twiddles as the rational values of their doubles, tolerance 1e-9 for samples in [-1, 1]"""
+    import ibldsp.fourier as f
+    _APPROX[0] = True
+    try:
+        vals = [ctx.real(f"w{i}", -1, 1) for i in range(3)]
+        h = k / 2 + 2.0 ** -21
+        w1 = ctx.call("fshift", f.fshift, arrays.mk(list(vals), tag=np.dtype(float)), h)
+        a = ctx.call("fshift", f.fshift, w1, h)
+        b = ctx.call("fshift", f.fshift, arrays.mk(list(vals), tag=np.dtype(float)), 2 * h)
+        if not ctx.oblige("shape_preserved", tuple(np.shape(a)) == (3,) and tuple(np.shape(b)) == (3,)):
+            return
+        tol = Fraction(1, 10 ** 9)
+        for i in range(3):
+            d = a[i] - b[i]
+            ctx.oblige("successive_shifts_add_near_a_whole_number_of_samples", and_(d <= tol, d >= -tol), detail={"i": i, "h": h, "twice": a[i], "once": b[i]})
+    finally:
+        _APPROX[0] = False
+
+
 def case_parabola_1d(ctx, n, imax):
     import ibldsp.utils as u
     a = ctx.real("a", -100, 100)
@@ -279,6 +322,76 @@ def _correlate_same(a, b, mode="full", method="auto"):
     return arrays.mk(full[start:start + na], tag=np.dtype(float))
 
 
+class _Spec:
+    """half spectrum of a real 1-D signal, kept as the signal itself (length n): products of spectra are circular convolutions
+    of the signals, conjugation is circular time reversal (convolution theorem - exact); irfft back to n samples returns the
+    signal, irfft to another length is an unknown resampling (fresh reals)"""
+    _k = [0]
+
+    def __init__(self, t):
+        self.t = list(t)
+
+    def conj(self):
+        n = len(self.t)
+        return _Spec([self.t[(-k) % n] for k in range(n)])
+
+    conjugate = conj
+
+    def __mul__(self, o):
+        if not isinstance(o, _Spec) or len(o.t) != len(self.t):
+            raise core.Unsupported("spectrum product outside the model")
+        n = len(self.t)
+        out = []
+        for m in range(n):
+            acc = 0
+            for i in range(n):
+                pa, pb = self.t[i], o.t[(m - i) % n]
+                if (not isinstance(pa, core.Sym) and pa == 0) or (not isinstance(pb, core.Sym) and pb == 0):
+                    continue
+                acc = acc + pa * pb
+            out.append(acc)
+        return _Spec(out)
+
+    __rmul__ = __mul__
+
+
+class _FFTw:
+    @staticmethod
+    def rfft(x, n=None, axis=-1, **k):
+        a = np.asarray(arrays._plain(x), dtype=object)
+        if a.ndim != 1 or n is not None:
+            raise core.Unsupported("rfft outside the 1-D spectrum model")
+        return _Spec(a.tolist())
+
+    @staticmethod
+    def irfft(X, n=None, axis=-1, **k):
+        if not isinstance(X, _Spec):
+            raise core.Unsupported("irfft outside the 1-D spectrum model")
+        n0 = len(X.t)
+        m = n0 // 2 + 1
+        nout = 2 * (m - 1) if n is None else int(n)
+        if nout == n0:
+            return arrays.mk(list(X.t), tag=np.dtype(float))
+        base = len(core.cur().inputs)
+        return arrays.mk([core.cur().real(f"resampled{base}_{i}") for i in range(nout)], tag=np.dtype(float))
+
+    @staticmethod
+    def fftshift(x, axes=None):
+        a = np.asarray(arrays._plain(x), dtype=object)
+        return arrays.mk(np.roll(a, a.shape[0] // 2).tolist(), tag=np.dtype(float))
+
+
+class _NPw:
+    fft = _FFTw
+
+    @staticmethod
+    def conj(x):
+        return x.conj() if isinstance(x, _Spec) else arrays.NP.conj(x)
+
+    def __getattr__(self, n):
+        return getattr(arrays.NP, n)
+
+
 def case_corrmax(ctx, n):
     """delay estimate between a waveform (three free samples on a silent baseline) and its copy delayed by a whole
     number of samples s: the cross-correlation peaks at lag s exactly, so the estimate must be s and the re-alignment must
@@ -322,6 +435,8 @@ def cases(tier):
     cs.append(Case("parabola_2d_n5", "case_parabola_2d", {"n": 5}, timeout_s=1500))
     for n in ((7, 8, 9, 10) if tier == "quick" else (7, 8, 9, 10, 11, 12, 13, 14, 15)):
         cs.append(Case(f"corrmax_integer_delay_n{n}", "case_corrmax", {"n": n}, timeout_s=1500))
+    for k in (1, 2, -1):
+        cs.append(Case(f"shift_near_integer_total_{k}", "case_shift_near_integer", {"k": k}, timeout_s=1500))
     return cs
 
 
@@ -368,6 +483,29 @@ resync, shift = w.wave_shift_corrmax(spike, spike2)
 print(n, s, v, shift, np.abs(resync - spike).max())
 if abs(shift - s) > 0.05: reproduced(f'delay estimate {{shift}} for a copy delayed by {{s}} samples (n={{n}})')
 if np.abs(resync - spike).max() > 0.05 * np.abs(spike).max(): reproduced(f'the re-aligned copy differs from the waveform by {{np.abs(resync - spike).max()}}')
+# the witness is a 3-sample waveform in a short window; the same situation (same parity of the window length, delay scaled) on a
+# spike-like waveform of realistic length
+n2 = 121 if n % 2 else 120
+t = np.arange(n2) - n2 // 2
+wv = (1 - (t / 4.0) ** 2) * np.exp(-(t / 4.0) ** 2 / 2)
+for s2 in sorted({{8 * s, 12 * s, -8 * s}} - {{0}}):
+    resync2, shift2 = w.wave_shift_corrmax(wv, np.roll(wv, s2))
+    print(n2, s2, shift2)
+    if abs(shift2 - s2) > 0.05: reproduced(f'delay estimate {{shift2}} for a spike waveform of {{n2}} samples delayed by {{s2}} samples')
+not_reproduced()
+"""
+    if case.startswith("shift_near_integer"):
+        vals = [F(m.get(f"w{i}", 0)) for i in range(3)]
+        return f"""
+import ibldsp.fourier as f
+k = {params['k']}; h = k / 2 + 2.0 ** -21
+bad = []
+for w in (np.array({vals}, dtype=float), np.sin(np.arange(301) / 3.0) * np.hanning(301)):        # the witness, and a smooth 301-sample signal
+    a = f.fshift(f.fshift(w.copy(), h), h); b = f.fshift(w.copy(), 2 * h)
+    err = np.max(np.abs(a - b))
+    print(len(w), err)
+    if err > 1e-8 * max(1.0, np.max(np.abs(w))): bad.append((len(w), float(err)))
+if bad: reproduced(f'two shifts by {{h!r}} differ from one shift by {{2 * h!r}} by {{bad}}')
 not_reproduced()
 """
     if case.startswith("shift"):
